@@ -219,21 +219,22 @@ def main():
 		noFault(t, "Seal appending into a destination that ends at a page boundary", func() { a.Seal(buf[:0], nonce, pt, aad) })
 	}''' % (keylit, ', '.join('{%d, %d, %d, %d}' % (c.get('nonce', 12), c.get('pt', 0), c.get('aad', 0), c.get('tag', 16)) for c in cases))
             return test_src(body)
-        if r in ('sealAsm', 'Seal') and ('pt' in cls or 'object' in cls):
-            pl = case.get('pt', 5)
+        if r in ('sealAsm', 'Seal', 'openAsm', 'Open') and ('read' in cls or 'object' in cls or 'pt' in cls or 'ct' in cls):
+            # a load outside an input: nonce, additional data and plaintext / ciphertext each end exactly at the end of a page
+            cases = f['cases'][:10]
             body = '''	b, _ := NewCipher(%s)
-	a, _ := cipher.NewGCM(b)
-	pt := guarded(%d)
-	noFault(t, "Seal with the plaintext at the end of a page", func() { a.Seal(nil, make([]byte, 12), pt, nil) })''' % (keylit, max(1, pl))
-            return test_src(body)
-        if r in ('openAsm', 'Open') and ('ct' in cls or 'object' in cls):
-            ts = case.get('tag', 12)
-            n = case.get('ct', 13) - ts
-            body = '''	b, _ := NewCipher(%s)
-	a, _ := cipher.NewGCMWithTagSize(b, %d)
-	sealed := a.Seal(nil, make([]byte, 12), make([]byte, %d), nil)
-	ct := guarded(len(sealed)); copy(ct, sealed)
-	noFault(t, "Open with the ciphertext at the end of a page", func() { if _, err := a.Open(nil, make([]byte, 12), ct, nil); err != nil { t.Fatalf("open failed: %%v", err) } })''' % (keylit, ts, n)
+	for _, c := range [][4]int{%s} {
+		a, err := b.(interface{ NewGCM(int, int) (cipher.AEAD, error) }).NewGCM(c[0], c[3])
+		if err != nil { t.Fatal(err) }
+		mk := func(n int) []byte { if n == 0 { return nil }; g := guarded(n); for i := range g { g[i] = byte(i*7 + 1) }; return g }
+		nonce, pt, aad := mk(c[0]), mk(c[1]), mk(c[2])
+		var sealed []byte
+		noFault(t, "Seal with nonce, additional data and plaintext each ending at a page boundary", func() { sealed = a.Seal(nil, nonce, pt, aad) })
+		ct := mk(len(sealed)); copy(ct, sealed)
+		noFault(t, "Open with nonce, additional data and ciphertext each ending at a page boundary", func() {
+			if _, err := a.Open(nil, nonce, ct, aad); err != nil { t.Fatalf("open failed: %%v", err) }
+		})
+	}''' % (keylit, ', '.join('{%d, %d, %d, %d}' % (c.get('nonce', 12), c.get('pt', max(0, c.get('ct', 16) - c.get('tag', 16))), c.get('aad', 0), c.get('tag', 16)) for c in cases))
             return test_src(body)
         if r == 'copyAsm':
             ns = sorted(set(c.get('n', 1) for c in f['cases']))[:12]
